@@ -390,37 +390,29 @@ func c10r4(c *Check) {
 			outer = l
 		}
 	}
+	outF := c.P.Field("aggregator", "Aggregator", "out")
 	allInstrs(fl, func(in ssa.Instruction) {
-		call, isCall := in.(*ssa.Call)
-		if !isCall || calleeName(call.Common()) != "fmt.Sprintf" {
+		snd, isSend := in.(*ssa.Send)
+		if !isSend || !isFieldLoad(snd.Chan, outF) {
 			return
 		}
-		f, _ := constString(call.Call.Args[0])
+		// the line, however it is put together (Sprintf, concatenation, strconv)
+		f, ops, ok := textTemplate(snd.X, 0)
+		if !ok {
+			formats = append(formats, "?")
+			return
+		}
 		formats = append(formats, f)
-		// last variadic argument is the tsList element
-		if sl, isS := call.Call.Args[1].(*ssa.Slice); isS {
-			if al, isA := sl.X.(*ssa.Alloc); isA {
-				n := al.Type().(*types.Pointer).Elem().(*types.Array).Len()
-				for _, r := range *al.Referrers() {
-					if ia, isIA := r.(*ssa.IndexAddr); isIA {
-						if k, _ := constInt(ia.Index); k == n-1 {
-							for _, rr := range *ia.Referrers() {
-								if st, isSt := rr.(*ssa.Store); isSt {
-									v := st.Val
-									if mi, isMI := v.(*ssa.MakeInterface); isMI {
-										v = mi.X
-									}
-									if outer != nil {
-										sl2, idx, _ := rangeLoopOver(outer)
-										if !rangeElem(v, sl2, idx) {
-											okTs = false
-										}
-									}
-								}
-							}
-						}
-					}
-				}
+		// the last operand is the tsList element of the enclosing loop
+		if len(ops) == 0 {
+			okTs = false
+			return
+		}
+		v := ops[len(ops)-1]
+		if outer != nil {
+			sl2, idx, _ := rangeLoopOver(outer)
+			if !rangeElem(v, sl2, idx) {
+				okTs = false
 			}
 		}
 	})
